@@ -658,6 +658,28 @@ pub fn run(ctx: &Ctx) {
         "across-rules",
     );
 
+    // random trees whose atoms all speak about one subject (see c04::subject_case), with calls among the operands: the
+    // invocation history is the lazy, left-to-right one whatever shape the tree has
+    let nsub = ctx.tier.pick(150_000u64, 2_000_000u64);
+    ctx.random(
+        "trees-about-one-subject",
+        nsub,
+        || gen::recipe(120),
+        |bytes, acc| {
+            let case = super::c04::subject_case(bytes);
+            if let Some(acc) = acc {
+                fn has_call(e: &Expr) -> bool {
+                    matches!(e, Expr::Function(..)) || children(e).iter().any(|c| has_call(c))
+                }
+                let calls = has_call(&case.expr);
+                acc.case(if calls { "subject:with-calls" } else { "subject:without-calls" }, calls, || case.render());
+            }
+            check(&case)
+        },
+        |bytes| super::c04::subject_case(bytes).to_json(),
+        "evalcase",
+    );
+
     ctx.enumerate(
         "lazy-family",
         fam.len() as u64,
